@@ -329,7 +329,19 @@ def classify_call(P, fn, s):
             room = (ex[0] - ex[1]) * ex[2]
             ub = offset_upper_bound(P, fn, s, a[2]['name'], ex[0])
             if ub is not None and ub <= room:
-                return '16 mem*(array, ., n) with n bounded by the array size', 'n<=%d size=%d' % (ub, room)
+                # bytes copied without a terminator: the text must be terminated behind them on every path (a NUL store
+                # into the array or a formatted write that continues it), otherwise an older, longer content shows through
+                def terminates(t):
+                    ev2 = t.ev
+                    if ev2['k'] == 'call' and ev2.get('callee') in ('snprintf', 'vsnprintf') and ev2['args']:
+                        rv2 = root_var(ev2['args'][0])
+                        return rv2 is not None and root_var(d) is not None and rv2['name'] == root_var(d)['name']
+                    if ev2['k'] == 'store' and ev2.get('op') == '=' and const_of(ev2.get('rhs')) == 0 and (ev2['lhs'] or {}).get('k') == 'idx' and same(ev2['lhs']['base'], d):
+                        return True
+                    return False
+                if name == 'memset' or d.get('elsz', 1) != 1 or fn.path_avoiding(s, terminates) is None:
+                    return '16 mem*(array, ., n) with n bounded by the array size, text terminated afterwards', 'n<=%d size=%d' % (ub, room)
+                return None, '%s(%s, ., %s) is bounded but nothing terminates the copied text: stale bytes of a longer earlier value remain' % (name, sx(d), sx(a[2]))
         # idiom 4: memcpy(dst, src_array, p - src_array), p = strchr(src_array, c) non-null here
         if ex is not None and a[2].get('k') == 'bin' and a[2]['op'] == '-' and is_var(a[2]['l']):
             p = a[2]['l']['name']
